@@ -29,9 +29,14 @@
    is left as a call with the tuple as its argument - Example [two_parameter_lambda_keeps_package];
    Python raises TypeError on it); dictionary keys and key selectors are str/int constants (bool keys
    compare equal to ints in Python); keyword-argument calls of lambdas only with atoms; a called lambda
-   with a starred argument [*xs] is not reduced (Python's binding refuses it), so [HS_Beta] asks for no
-   starred argument and such a call is typable only as an atom call (Example
-   [starred_called_lambda_is_left_as_a_call]). *)
+   with a starred argument [*xs] is not reduced (Python's binding refuses it) and a tuple/list literal
+   with a starred element is not projected (it has no fixed positions): starred nodes are outside the
+   discipline altogether - no rule types an [Other "Starred;value=n"] node ([hs_not_starred]), and
+   [atom] (hence [canon]) excludes them, which is what makes every canonical literal projectable.
+   Typing starred nodes as atoms would make the theorem false: (Select( *x, lambda y: y), b)[0] has no
+   starred element, is simplified to ( *x, b)[0] and keeps the projection (Examples
+   [starred_called_lambda_is_left_as_a_call], [starred_literal_is_not_projected],
+   [starred_source_defeats_projection]). *)
 From FA.Base Require Import PyAst Induct Value Eval Traverse Names.
 From FA.Gen Require Import TablesSimp.
 From FA.Model Require Import Simplify.
@@ -79,6 +84,7 @@ Definition node_ok (e : expr) : bool :=
   match e with
   | Tuple _ | List _ | Dict _ _ => false
   | Call f args _ _ => op1 f args
+  | Other cls _ _ => negb (String.eqb cls "Starred;value=n")     (* no starred node [*xs] *)
   | _ => true
   end.
 
@@ -103,7 +109,7 @@ Fixpoint nopkg (e : expr) {struct e} : bool :=
   | Other _ _ cs => all cs
   end.
 
-(* [atom]: package free, and every Select/Where/SelectMany call has a one-parameter lambda *)
+(* [atom]: package free, every Select/Where/SelectMany call has a one-parameter lambda, no starred node *)
 Fixpoint atom (e : expr) {struct e} : bool :=
   let all := fix all (l : list expr) : bool :=
                match l with [] => true | y :: ys => atom y && all ys end in
@@ -121,7 +127,7 @@ Fixpoint atom (e : expr) {struct e} : bool :=
   | Subscript v i => atom v && atom i
   | ListComp a gs | GenExp a gs => atom a && all gs
   | CompFor t i ifs _ => atom t && atom i && all ifs
-  | Other _ _ cs => all cs
+  | Other cls _ cs => negb (String.eqb cls "Starred;value=n") && all cs
   end.
 
 Lemma atom_all_fix l :
@@ -181,6 +187,15 @@ Proof. split; induction 1; constructor; assumption. Qed.
 Lemma canons_length ss es : canons ss es -> length es = length ss.
 Proof. induction 1; simpl; congruence. Qed.
 
+Lemma atom_not_starred e : atom e = true -> is_starred e = false.
+Proof. destruct e; try reflexivity. cbn [atom is_starred]. intros H. apply andb_true_iff in H. destruct H as [H _]. apply negb_true_iff in H. exact H. Qed.
+
+Lemma canon_not_starred s e : canon s e -> is_starred e = false.
+Proof. intros H. destruct H; try reflexivity. apply atom_not_starred. assumption. Qed.
+
+Lemma canons_not_starred ss es : canons ss es -> existsb is_starred es = false.
+Proof. induction 1 as [|s e ss es He _ IH]; [reflexivity|]. cbn [existsb]. rewrite (canon_not_starred _ _ He), IH. reflexivity. Qed.
+
 Lemma canon_SA_inv e : canon SA e -> atom e = true.
 Proof. intros H. inversion H. assumption. Qed.
 
@@ -226,7 +241,8 @@ Definition index_of (s : expr) : option Z :=
 Definition gen_node (e : expr) : bool :=
   match e with
   | Const _ | Attr _ _ | UnaryOp _ _ | BinOp _ _ _ | BoolOp _ _ | Compare _ _ _ | IfExp _ _ _
-  | Subscript _ _ | Other _ _ _ => true
+  | Subscript _ _ => true
+  | Other cls _ _ => negb (String.eqb cls "Starred;value=n")     (* a starred node is not an expression *)
   | Call (Name fn) _ _ _ => negb (is_call_handler fn)
   | Call _ _ _ _ => true
   | _ => false
@@ -244,7 +260,7 @@ Inductive has_shape : (string -> shape) -> expr -> shape -> Prop :=
  | HS_SubD G e k kss t : has_shape G e (SD kss) -> strint k = true -> In (k, t) kss ->
      has_shape G (Subscript e (Const k)) t
  | HS_AttrD G e a kss t : has_shape G e (SD kss) -> In (CStr a, t) kss -> has_shape G (Attr e a) t
- (* a called lambda; a starred argument [*xs] is not bound positionally (such a call is an atom call, [HS_Gen]) *)
+ (* a called lambda; a starred argument [*xs] is not bound positionally *)
  | HS_Beta G ps b args ss s : length ps = length args -> existsb is_starred args = false ->
      has_shapes G args ss -> has_shape (upd G ps ss) b s ->
      has_shape G (Call (Lambda ps b) args [] []) s
@@ -266,6 +282,13 @@ with has_shapes : (string -> shape) -> list expr -> list shape -> Prop :=
 Scheme has_shape_mut := Minimality for has_shape Sort Prop
   with has_shapes_mut := Minimality for has_shapes Sort Prop.
 Combined Scheme has_shape_mutind from has_shape_mut, has_shapes_mut.
+
+(* starred nodes are outside the discipline *)
+Lemma hs_not_starred G e s : has_shape G e s -> is_starred e = false.
+Proof.
+  intros H. destruct H; try reflexivity. destruct e; try reflexivity.
+  cbn [gen_node] in H. apply negb_true_iff in H. exact H.
+Qed.
 
 Lemma has_shapes_Forall2 G es ss : has_shapes G es ss <-> Forall2 (has_shape G) es ss.
 Proof. split; induction 1; constructor; assumption. Qed.
@@ -500,7 +523,7 @@ Proof. destruct e; try reflexivity; discriminate. Qed.
 
 Lemma gen_node_rename m e : mok m -> gen_node e = true -> gen_node (map_children_t (rename m) e) = true.
 Proof.
-  intros Hm Hg. destruct e; try discriminate; try reflexivity. cbn [map_children_t].
+  intros Hm Hg. destruct e; try discriminate; try reflexivity; try exact Hg. cbn [map_children_t].
   destruct e; try reflexivity.
   cbn [gen_node] in Hg. apply negb_true_iff in Hg. cbn [rename]. destruct (ren_lookup id m) as [y|] eqn:E.
   - cbn [gen_node]. destruct (Hm _ _ E) as [->|[_ H]]; rewrite ?Hg, ?H; reflexivity.
@@ -659,7 +682,7 @@ Proof.
   - apply Hgen; [reflexivity|]. cbn [wfq] in Hw. apply andb_true_iff in Hw. destruct Hw as [Hw W3]. apply andb_true_iff in Hw. destruct Hw.
     intros x [<-|[<-|[<-|[]]]]; assumption.
   - apply Hgen; [reflexivity|]. cbn [wfq] in Hw. apply andb_true_iff in Hw. destruct Hw. intros x [<-|[<-|[]]]; assumption.
-  - apply Hgen; [reflexivity|]. cbn [wfq] in Hw. rewrite forallb_forall in Hw. exact Hw.
+  - apply Hgen; [exact Hn|]. cbn [wfq] in Hw. rewrite forallb_forall in Hw. exact Hw.
 Qed.
 
 Lemma canon_typable_mut :
@@ -1049,7 +1072,7 @@ Section Shape.
   Lemma node_ok_rebuild e cs :
     gen_node e = true -> length cs = length (children e) -> wfq_all cs = true -> node_ok (rebuild e cs) = true.
   Proof.
-    intros Hg Hl Hw. destruct e; try discriminate Hg; cbn [children length] in Hl; cbn [rebuild]; try reflexivity;
+    intros Hg Hl Hw. destruct e; try discriminate Hg; cbn [children length] in Hl; cbn [rebuild]; try reflexivity; try exact Hg;
       try (destruct cs as [|? [|? [|? [|? ?]]]]; try discriminate Hl; reflexivity).
     destruct cs as [|e0 cs]; [discriminate Hl|].
     cbn [node_ok op1]. cbn [forallb] in Hw. apply andb_true_iff in Hw. destruct Hw as [Hw _].
@@ -1163,9 +1186,10 @@ Section Shape.
       subst e'. constructor. cbn [atom]. rewrite Hc, Hcs. reflexivity.
     - pose proof (IH _ _ _ _ _ _ _ _ Ev Hst Hpv HG Hv) as Hc.
       destruct (simp_index _ _ _ _ _ _ _ _ Hi Es) as [Hn ->]. rewrite Hn in H. cbn [const_index] in H.
-      destruct (seq_project_canon ss _ z t (match Hc in canon s1 e1 return match s1 with ST l => canons l (match e1 with Tuple x | List x => x | _ => [] end) | _ => True end with
-                                            | CT _ _ Hx => Hx | CL _ _ Hx => Hx | _ => I end) Hpy) as (x & Hx & Hcx).
-      inversion Hc; subst; cbn in Hx; rewrite Hx in H; cbn [sbind] in H; inversion H; subst; assumption.
+      inversion Hc as [|ss0 es Hes|ss0 es Hes| | |]; subst;
+        rewrite (canons_not_starred _ _ Hes) in H;
+        destruct (seq_project_canon ss es z t Hes Hpy) as (x & Hx & Hcx);
+        rewrite Hx in H; cbn [sbind] in H; inversion H; subst; assumption.
     - pose proof (IH _ _ _ _ _ _ _ _ Ev Hst Hpv HG Hv) as Hc. inversion Hc as [| | |kss0 vs' Hkk Hvs| |]; subst.
       apply simp_Const in Es. destruct Es as [-> ->]. cbn [norm_index] in H.
       assert (Hck : const_key k = true) by (destruct k; try discriminate Hk; reflexivity). rewrite Hck in H.
@@ -1879,6 +1903,22 @@ Module ShapeExample.
     split; [reflexivity|]. split; [vm_compute; reflexivity|].
     eexists; eexists. split; [vm_compute; reflexivity|]. split; vm_compute; reflexivity.
   Qed.
+  (* a literal with a starred element has no fixed positions and is left alone *)
+  Definition starred_literal : expr :=
+    Subscript (Tuple [Other "Starred;value=n" [] [Name "a"]; Name "b"]) (Const (CInt 0)).
+  Example starred_literal_is_not_projected :
+    wfq starred_literal = true /\ simplify 100 0 starred_literal = Ok (starred_literal, 0).
+  Proof. split; [reflexivity | vm_compute; reflexivity]. Qed.
+
+  (* why starred nodes are not typed as atoms: (Select( *x, lambda y: y), b)[0] has no starred element, but
+     the identity Select is dropped, the element becomes *x and the projection stays *)
+  Definition starred_source : expr :=
+    Subscript (Tuple [sel (Other "Starred;value=n" [] [Name "x"]) "y" (Name "y"); Name "b"]) (Const (CInt 0)).
+  Example starred_source_defeats_projection :
+    wfq starred_source = true /\
+    simplify 100 0 starred_source =
+      Ok (Subscript (Tuple [Other "Starred;value=n" [] [Name "x"]; Name "b"]) (Const (CInt 0)), 0).
+  Proof. split; [reflexivity | vm_compute; reflexivity]. Qed.
 End ShapeExample.
 
 Print Assumptions shape_sound.
